@@ -2,6 +2,17 @@
 -- (every module that must be built by `lake build EpModel` is imported here)
 import EpModel.Model.Basic
 import EpModel.Model.Checksum
+import EpModel.Model.ViewBasic
+import EpModel.Model.Icmp
+import EpModel.Model.Ndp
+import EpModel.Model.Igmp
+import EpModel.Model.ArpView
+import EpModel.Model.ViewAbs
+import EpModel.Spec.ViewData
+import EpModel.Spec.IcmpTables
+import EpModel.Spec.NdpFormat
+import EpModel.Spec.IgmpArpFormat
+import EpModel.Lemmas.View
 import EpModel.Driver.Ck
 import EpModel.Driver.Bf
 import EpModel.Driver.Opt
@@ -14,3 +25,4 @@ import EpModel.Driver.Set
 import EpModel.Driver.Build
 import EpModel.Driver.Dec
 import EpModel.Props.C09
+import EpModel.Props.C17
